@@ -65,6 +65,11 @@ def run(chk, orch):
                 cell = common.random_cell(chk.rng) if v > 0 else dict(common.GOLDEN_CELL)
                 cell["hashseed"] = 0
                 a = common.job_args(s2, o, cell, oracles=["counts", "ties"])
+                if v == (4 if quick else 6) - 1:
+                    # history of the output folder: another data set with multi-mappers was processed there with --keep_tmp
+                    # (its resolver verdict files are still around); the verdicts of THIS run must not depend on it
+                    a["pre"] = {"spec": dict(spec, seed=spec["seed"] + 1), "opts": dict(o, keep_tmp=True, threads=1, high_memory=False)}
+                    chk.faults["output_folder_with_multimapper_files_of_another_run"] += 1
                 orch.submit(0, "scenarios:pipeline", a, tag=("p", k, v))
                 variants[(k, v)] = (s2, o, cell, a)
         res = {}
